@@ -602,4 +602,48 @@ def exprGrammar : List (String × List String × Option String × String) := [
   ("variable_access", ["variable_name"], none,
     "$0 = VariableAccessNode(variable_name=$1)") ]
 
+/-! ### re-spelling of keywords (used for C08: letter case of keywords does not matter to the parser)
+
+  The parser looks at token KINDS only and copies lexemes into the tree.  `mapTok g` rewrites the lexeme of
+  every token by a function of its kind; `Expr.mapKw g` rewrites exactly the fields of a tree that hold the
+  lexeme of a keyword-kind token: the boolean literal value and the operator of unary / binary nodes. -/
+
+/-- the token kinds whose lexeme is a keyword (any letter case), incl. the `end if|for|while` tokens -/
+def Kind.isKeyword : Kind → Bool
+  | .ASSIGN | .ASSIGNER | .BREAK | .BRIDGE | .SEND | .CONTROL | .STOP | .CONTINUE | .CREATE | .EVENT
+  | .INSTANCE | .OF | .OBJECT | .DELETE | .FOR | .EACH | .IN | .GENERATE | .IF | .ELIF | .ELSE | .RELATE
+  | .TO | .ACROSS | .USING | .RETURN | .SELECT | .ONE | .ANY | .MANY | .TRANSFORM | .UNRELATE | .FROM
+  | .WHILE | .CLASS | .CREATOR | .RELATED | .BY | .INSTANCES | .WHERE | .CARDINALITY | .EMPTY | .FALSE
+  | .NOT | .NOT_EMPTY | .TRUE | .AND | .OR | .PARAM | .RCVD_EVT | .SELF | .SELECTED | .LOOP | .THEN
+  | .END_FOR | .END_IF | .END_WHILE => true
+  | _ => false
+
+/-- rewrite the lexeme of a token by a function of its kind -/
+def mapTok (g : Kind → String → String) (tok : Tok) : Tok := ⟨tok.kind, g tok.kind tok.lex⟩
+
+mutual
+def Expr.mapKw (g : Kind → String → String) : Expr → Expr
+  | .bool b v => .bool b (g (if b then .TRUE else .FALSE) v)
+  | .field h n => .field (h.mapKw g) n
+  | .index h i => .index (h.mapKw g) (i.mapKw g)
+  | .fcall n ps => .fcall n (ps.mapKw g)
+  | .icall ns n ps => .icall ns n (ps.mapKw g)
+  | .ocall h n ps => .ocall (h.mapKw g) n (ps.mapKw g)
+  | .un op e => .un (mapTok g op) (e.mapKw g)
+  | .bin l op r => .bin (l.mapKw g) (mapTok g op) (r.mapKw g)
+  | e => e
+def Params.mapKw (g : Kind → String → String) : Params → Params
+  | .nil => .nil
+  | .cons n e ps => .cons n (e.mapKw g) (ps.mapKw g)
+end
+
+/-- ASCII lower case, character by character (`A`–`Z` only, as the keyword test of `t_ID` folds case) -/
+def lowerStr (s : String) : String := String.ofList (s.toList.map Char.toLower)
+
+/-- lower-case the lexeme of keyword-kind tokens, leave every other lexeme alone -/
+def lowerKw (k : Kind) (s : String) : String := if k.isKeyword then lowerStr s else s
+
+/-- forget the lexeme of keyword-kind tokens, leave every other lexeme alone -/
+def eraseKw (k : Kind) (s : String) : String := if k.isKeyword then "" else s
+
 end Pyx.Oal
